@@ -702,6 +702,20 @@ impl IdmServerProxyWriteTransaction<'_> {
             missing_scim.remove(&entry.get_uuid());
         });
 
+        // The stubs below are created with the internal identity, which is allowed to create
+        // entries in the protected system uuid range (they become builtin entries). A sync
+        // agreement must never be able to do that.
+        if let Some(uuid) = missing_scim
+            .keys()
+            .find(|uuid| **uuid < DYNAMIC_RANGE_MINIMUM_UUID)
+        {
+            error!(
+                ?uuid,
+                "Unable to proceed: entry uuid is in the protected system uuid range. You must re-map this entries uuid in the sync connector to proceed."
+            );
+            return Err(OperationError::InvalidEntryState);
+        }
+
         // For entries that do not exist, create stub entries. We don't create the external ID here
         // yet, because we need to ensure that it's unique.
         let create_stubs: Vec<EntryInitNew> = missing_scim
